@@ -219,7 +219,23 @@ pub fn run(ctx: &Ctx) -> Outcome {
     // 1 + 2: facts monitor over the unrestricted space
     let sp = spaces::unrestricted(ctx.tier, ctx.seed ^ 13, 4, 4, 3_000, 40_000);
     let texts = spaces::texts_mb(ctx.tier.pick(2, 3));
-    let mut acc = facts_pass(ctx, &sp.patterns, &texts);
+    // conditionals inside look-behinds: the only place where a conditional's const_size is read
+    let mut fact_patterns = sp.patterns.clone();
+    {
+        use crate::ast::Node::*;
+        let bx = |n: Node| Box::new(n);
+        let mut g = crate::gen::Gen::new(false);
+        for x in g.upto(2) {
+            for (y, n) in [(Node::lit("a"), Empty), (Node::lit("aé"), Node::lit("a")), (Node::lit("a"), Node::lit("éa")), (Empty, Node::lit("a")), (Node::lit("a"), Node::lit("b"))] {
+                if x != Empty && !matches!(x, Backref(_)) {
+                    fact_patterns.push(Concat(vec![Look(bx(CondExpr(bx(x.clone()), bx(y.clone()), bx(n.clone()))), true, false), Node::lit("b")]));
+                    fact_patterns.push(Look(bx(Concat(vec![Any(false), CondExpr(bx(x.clone()), bx(y.clone()), bx(n.clone()))])), true, true));
+                }
+                fact_patterns.push(Concat(vec![Repeat(bx(Node::group(x.clone())), 0, Some(1), Mode::Greedy), Look(bx(CondGroup(1, bx(y.clone()), bx(n.clone()))), true, false)]));
+            }
+        }
+    }
+    let mut acc = facts_pass(ctx, &fact_patterns, &texts);
     // 3: behaviour of accepted look-behinds on multi-byte texts, offsets near 0
     let sp3 = spaces::c01_space(ctx.tier, ctx.seed ^ 13, false, 4, 5, 2, 3, 3_000, 30_000);
     let mut lb: Vec<Node> = sp3.patterns.into_iter().filter(|p| p.has_lookbehind()).collect();
@@ -236,7 +252,7 @@ pub fn run(ctx: &Ctx) -> Outcome {
         }
     }
     let texts3 = spaces::texts_mb(ctx.tier.pick(3, 4));
-    let cfg = DiffCfg { prop: "C13", compare: Compare::All, entry_points: false, ref_budget: refm::BUDGET, step_cap: Some(2_000_000), exclude: &lb_exclude, static_known: &diff::no_static_known, style: None };
+    let cfg = DiffCfg { prop: "C13", compare: Compare::All, entry_points: false, ref_budget: refm::BUDGET, step_cap: Some(2_000_000), exclude: &lb_exclude, static_known: &diff::no_static_known, style: None, f1_compat: false };
     let n_lb = lb.len();
     let acc3 = diff::run(ctx, &cfg, &lb, &texts3);
     let mb_lb = acc3.distinct;
